@@ -304,8 +304,9 @@ def run(ctx):
             if not full and 'pos' in tok and rng.random() < 0.5:
                 del tok['pos']
 
-    exotic_pool = []
-    while len(exotic_pool) < 40:
+    # categories whose text ends in a feature named like the CCGbank quirk that _fix repairs (`...[conj]` after an atom is a real feature)
+    exotic_pool = [Category.parse(x) for x in ['NP[conj]', 'S[dcl]\\NP[conj]', '(S\\NP)/N[conj]', 'N[conj]/N', 'conj', 'S[conj]']]
+    while len(exotic_pool) < 46:
         c = gen.rand_cat(rng, 'en', depth=rng.randint(0, 3), exotic=True, slashes=gen.SLASHES)
         if gen.wf_py(c):
             exotic_pool.append(c)
